@@ -225,7 +225,11 @@ def case(ctx, i, rng, curved=None):
             F = F + G2.expr((), 2)
             nxt = max_arg_number(F) + 1
             v1, v2 = U.arg(wname, nxt), (U.arg(w2name, nxt) if rng.random() < 0.5 else U.coef(w2name, 0))
-            args = (F, (w, w2), (v1, v2))
+            # the tuple in creation order or not, as a tuple or as a list: each coefficient keeps ITS direction
+            if rng.random() < 0.5:
+                args = (F, (w2, w), (v2, v1)) if rng.random() < 0.6 else (F, [w2, w], [v2, v1])
+            else:
+                args = (F, (w, w2), (v1, v2))
             frames.append(((w, w2), (v1, v2), ()))
         elif variant in ("tuple-mixedarg", "tuple-auto"):
             # several coefficients, ONE direction on the mixed space of their elements (given or created by UFL):
